@@ -1,4 +1,5 @@
 from vlib.core import Check, Family
+from vlib.gentie import gentie_step_all   # gen_eq_GR4J (listed under C10) ties the GR4J model these theorems are about
 
 CHECK = Check(
     "C15",
@@ -12,6 +13,7 @@ CHECK = Check(
         # so on days with |P-E| > 13 x1 the two differ by up to ~1e-11 of the store size: absolute tolerance 1e-10 x scale
         Family("KSPEC", rtol=1e-9, atol_scale=1e-10, args=["variant=published", "n=150"], label="KSPEC-published"),
     ],
+    pre_steps=[gentie_step_all],
     level="proof",
     trusted=[
         "hand-written Lean kernel model OW/Kernels/GR4J.lean of models/rr/gr4j.go (gr4j, initGR4J, extract/pack), tied to "
